@@ -262,23 +262,37 @@ class C16:
                 for nm in names:
                     b.emit('load_image', {'path': nm, 'spacing': sp},
                            tags={'k': 'load_image', 'avgmember': grp})
+                refh = None
+                if rng.random() < 0.35 and shape[0] > 2 and shape[1] > 2:
+                    # a reference image: smaller field of view on the same
+                    # pixel grid, with its own metadata
+                    rshape = [rng.randint(2, shape[0]),
+                              rng.randint(2, shape[1])]
+                    refh = b.emit('image', {
+                        'shape': rshape, 'spacing': sp,
+                        'seed': rng.randrange(2 ** 31), 'dtype': 'float64',
+                        'optics': dict(draw_optics(rng), noise_sd=None),
+                        'name': 'ref', 'channels': None, 'offset': 1.0,
+                        'scale': 0.1}, store='ref',
+                        tags={'k': 'image', 'multi': False})
                 for rep in range(2):
                     if faults['F5']:
                         b.emit('set_glob_seed',
                                {'seed': rng.randrange(1, 2 ** 31)},
                                tags={'k': 'F5'})
+                    la = {'spacing': rng.choice([sp, None])
+                          if refh is not None else sp}
+                    if refh is not None:
+                        la['refimg'] = refh
                     if rng.random() < 0.5:
-                        b.emit('load_average', {'directory': d,
-                                                'spacing': sp},
-                               tags={'k': 'load_average', 'avg': grp,
-                                     'n': k})
+                        la['directory'] = d
                     else:
                         order = list(names)
                         rng.shuffle(order)
-                        b.emit('load_average', {'paths': order,
-                                                'spacing': sp},
-                               tags={'k': 'load_average', 'avg': grp,
-                                     'n': k})
+                        la['paths'] = order
+                    b.emit('load_average', la,
+                           tags={'k': 'load_average', 'avg': grp, 'n': k,
+                                 'refimg': refh is not None})
             else:
                 o = draw_optics(rng)
                 for kk in list(o):
@@ -639,11 +653,42 @@ class C16:
                 continue
             p = rec['payload']
             v = np.squeeze(np.asarray(p['values'], float))
-            scale = max(1.0, float(np.max(np.abs(mean))))
-            if v.shape != mean.shape or O.maxerr(v, mean) > 1e-12 * scale:
+            mean_, std_ = mean, std
+            if ev['tags'].get('refimg'):
+                rrec = ex.records.get(rec['rargs']['refimg'].get('ref'))
+                if not rrec or rrec['outcome'] != 'ok':
+                    continue
+                rp = rrec['payload']
+                rx = len(rp['coords']['x']['values'])
+                ry = len(rp['coords']['y']['values'])
+                mean_, std_ = mean[:rx, :ry], std[:rx, :ry]
+                with np.errstate(all='ignore'):
+                    noise_r = float(np.mean(std_ / mean_))
+                # coordinates and metadata come from the reference image
+                if not self._cmp_coords(ex, ev, {
+                        'dims': ['x', 'y'], 'coords': rp['coords']}, p,
+                        'average-refimg'):
+                    continue
+                ra_, pa_ = attrs_plain(rp), attrs_plain(p)
+                bad = [k_ for k_ in ('medium_index', 'illum_wavelen',
+                                     'illum_polarization')
+                       if not _meta_equal(ra_.get(k_), pa_.get(k_))]
+                if bad:
+                    ex.add(violation(
+                        'C16.average', ev['id'],
+                        'averaged image does not carry the reference '
+                        'image\'s %s' % bad[0],
+                        sig='C16.average:refimg-metadata'))
+                    continue
+            else:
+                noise_r = noise
+            scale = max(1.0, float(np.max(np.abs(mean_))))
+            if v.shape != mean_.shape or O.maxerr(v, mean_) > 1e-12 * scale:
                 ex.add(violation('C16.average', ev['id'],
                                  'average differs from the pixelwise mean by '
-                                 '%.3g' % O.maxerr(v, mean),
+                                 '%.3g' % (O.maxerr(v, mean_)
+                                           if v.shape == mean_.shape
+                                           else float('nan')),
                                  sig='C16.average:mean'))
                 continue
             ns = attrs_plain(p).get('noise_sd')
@@ -651,12 +696,14 @@ class C16:
                 ns['values'] if O.is_da(ns) else
                 (ns['v'] if isinstance(ns, dict) else ns),
                 dtype=float).reshape(-1)[0])
-            if np.isfinite(noise) and abs(nsv - noise) > 1e-11 * max(
-                    1, abs(noise)):
+            if np.isfinite(noise_r) and abs(nsv - noise_r) > 1e-11 * max(
+                    1, abs(noise_r)):
                 ex.add(violation('C16.average', ev['id'],
                                  'relative noise %r, batch value %r' % (
-                                     nsv, noise), sig='C16.average:noise'))
+                                     nsv, noise_r), sig='C16.average:noise'))
                 continue
+            if ev['tags'].get('refimg'):
+                ex.fault('probe:average-with-refimg-judged', 1)
             outs.append((ev, v, nsv))
         for i in range(1, len(outs)):
             if O.maxerr(outs[i][1], outs[0][1]) > 1e-12 * max(
